@@ -26,6 +26,16 @@ impl StoreLog {
         ensures final(self).effs@ == old(self).effs@.push(Eff::RPush(db as int, key@, elements@.map_values(|e: Vec<u8>| e@))),
     { unimplemented!() }
     #[verifier::external_body]
+    pub fn set_string(&mut self, db: usize, key: Vec<u8>, value: Vec<u8>) -> (r: Result<()>) { unimplemented!() }
+    #[verifier::external_body]
+    pub fn set_string_ex(&mut self, db: usize, key: Vec<u8>, value: Vec<u8>, ttl: Duration) -> (r: Result<()>) { unimplemented!() }
+    #[verifier::external_body]
+    pub fn sadd(&mut self, db: usize, key: Vec<u8>, members: Vec<Vec<u8>>) -> (r: Result<usize>) { unimplemented!() }
+    #[verifier::external_body]
+    pub fn hset(&mut self, db: usize, key: Vec<u8>, field_values: Vec<(Vec<u8>, Vec<u8>)>) -> (r: Result<usize>) { unimplemented!() }
+    #[verifier::external_body]
+    pub fn zadd(&mut self, db: usize, key: Vec<u8>, member: Vec<u8>, score: f64) -> (r: Result<bool>) { unimplemented!() }
+    #[verifier::external_body]
     pub fn xadd_with_id(&mut self, db: usize, key: Vec<u8>, id: StreamId, fields: HashMap<Vec<u8>, Vec<u8>>) -> (r: Result<()>)
         ensures final(self).effs@ == old(self).effs@.push(Eff::XAdd(db as int, key@, id)),
     { unimplemented!() }
@@ -39,6 +49,8 @@ impl RdbReader {
     fn read_string(&mut self) -> (r: Result<Vec<u8>>)
         ensures r matches Ok(v) ==> final(self).reads@ == old(self).reads@.push(Item::Str(v@)), r is Err ==> final(self).reads@ == old(self).reads@,
     { unimplemented!() }
+    #[verifier::external_body]
+    fn read_f64(&mut self) -> (r: Result<f64>) { unimplemented!() }
     #[verifier::external_body]
     fn read_length(&mut self) -> (r: Result<usize>)
         ensures r matches Ok(n) ==> final(self).reads@ == old(self).reads@.push(Item::Len(n as int)), r is Err ==> final(self).reads@ == old(self).reads@,
@@ -121,6 +133,61 @@ impl RdbReader {
     // the obligations of this unit are its SAFETY and TERMINATION conditions: for every answer of the reader (every count, every field-count
     // text: they come from the file) no arithmetic in the arm overflows and both loops terminate
     fn load_stream_arm(&mut self, storage: &mut StoreLog, db: usize, ttl: Option<Duration>) -> (r: Result<()>)
+//@@ body
+//@@ end
+}
+impl RdbReader {
+//@@ unit load_string_arm arm src/storage/rdb.rs RdbReader::read_key_value_with_type "op if op == RdbOpcode::String as u8"
+//@@   opt same-return-type
+//@@   tail Ok(())
+//@@   params drop "storage: &Arc<StorageEngine>" add "storage: &mut StoreLog"
+    // C10: safety and termination only (see load_stream_arm): whatever count the file names, the arm neither overflows, nor allocates by that
+    // count (elements are pushed one by one as they are read), nor loops for ever
+    fn load_string_arm(&mut self, storage: &mut StoreLog, db: usize, ttl: Option<Duration>) -> (r: Result<()>)
+//@@ body
+//@@ end
+
+//@@ unit load_zset_arm arm src/storage/rdb.rs RdbReader::read_key_value_with_type "op if op == RdbOpcode::ZSet as u8 || op == RdbOpcode::ZSet2 as u8"
+//@@   opt same-return-type
+//@@   tail Ok(())
+//@@   params drop "storage: &Arc<StorageEngine>" add "storage: &mut StoreLog"
+//@@   rewrite RFORC 0
+//@@   loop 0
+//@@|     invariant 0 <= ___n <= ___end, ___end == count,
+//@@|     decreases ___end - ___n,
+    // C10: safety and termination only (see load_stream_arm): whatever count the file names, the arm neither overflows, nor allocates by that
+    // count (elements are pushed one by one as they are read), nor loops for ever
+    fn load_zset_arm(&mut self, storage: &mut StoreLog, db: usize, ttl: Option<Duration>) -> (r: Result<()>)
+//@@ body
+//@@ end
+
+//@@ unit load_set_arm arm src/storage/rdb.rs RdbReader::read_key_value_with_type "op if op == RdbOpcode::Set as u8"
+//@@   opt same-return-type
+//@@   tail Ok(())
+//@@   params drop "storage: &Arc<StorageEngine>" add "storage: &mut StoreLog"
+//@@   rewrite RT "let mut members = Vec::new();" "let mut members: Vec<Vec<u8>> = Vec::new();"
+//@@   rewrite RFORC 0
+//@@   loop 0
+//@@|     invariant 0 <= ___n <= ___end, ___end == count,
+//@@|     decreases ___end - ___n,
+    // C10: safety and termination only (see load_stream_arm): whatever count the file names, the arm neither overflows, nor allocates by that
+    // count (elements are pushed one by one as they are read), nor loops for ever
+    fn load_set_arm(&mut self, storage: &mut StoreLog, db: usize, ttl: Option<Duration>) -> (r: Result<()>)
+//@@ body
+//@@ end
+
+//@@ unit load_hash_arm arm src/storage/rdb.rs RdbReader::read_key_value_with_type "op if op == RdbOpcode::Hash as u8"
+//@@   opt same-return-type
+//@@   tail Ok(())
+//@@   params drop "storage: &Arc<StorageEngine>" add "storage: &mut StoreLog"
+//@@   rewrite RT "let mut field_values = Vec::new();" "let mut field_values: Vec<(Vec<u8>, Vec<u8>)> = Vec::new();"
+//@@   rewrite RFORC 0
+//@@   loop 0
+//@@|     invariant 0 <= ___n <= ___end, ___end == count,
+//@@|     decreases ___end - ___n,
+    // C10: safety and termination only (see load_stream_arm): whatever count the file names, the arm neither overflows, nor allocates by that
+    // count (elements are pushed one by one as they are read), nor loops for ever
+    fn load_hash_arm(&mut self, storage: &mut StoreLog, db: usize, ttl: Option<Duration>) -> (r: Result<()>)
 //@@ body
 //@@ end
 }
